@@ -27,7 +27,8 @@ RULE = ("case = (m npre npost (l0 l1 .. ln)): a real tachys keyed(..) view whose
         "#[derive(Store)] struct (#[store(key: i64 = |r| r.id)] rows: Vec<Row>, one level below the root), i.e. "
         "reactive_stores' KeyedSubfield::into_iter / AtKeyed rows, every row rendering the label of ITS item through its "
         "AtKeyed subfield, histories of 2-7 lists each written through the keyed field's guard, rows().set, the "
-        "parent's guard / update, the root's guard or store.set (mixed at random, some histories only through the field, "
+        "parent's guard / update, the root's guard or store.set, or as a BATCHED update (update_untracked, then every retained "
+        "row writes through its AtKeyed handle before anything iterates the field again, then notify) (mixed at random, some histories only through the field, "
         "some only through ancestors), the label of every rendered item incremented after every update through the "
         "row's AtKeyed handle, the field's guard or the root's guard; mode 20 'shaped rows': keyed(..) whose row for key "
         "k is shape[k mod p] of 1-4 random shapes over text | () | <span> | tuple | nested keyed list | Vec | Option | "
@@ -332,7 +333,8 @@ def generate(rng, tier):
         for _ in range(rng.randint(1, 6)):
             ls.append(mutate(rng, ls[-1], nk) if rng.random() < 0.8 else rand_list(rng, 6, nk))
         style = rng.random()
-        vias = [0, 4] if style < 0.15 else ([1, 2, 3, 5] if style < 0.4 else [0, 1, 2, 3, 4, 5])
+        # 6 = batched: update_untracked, writes through the retained rows' handles, notify
+        vias = [0, 4, 6] if style < 0.15 else ([1, 2, 3, 5] if style < 0.35 else ([6, 6, 0] if style < 0.5 else [0, 1, 2, 3, 4, 5, 6, 6]))
         bumps = [0] if rng.random() < 0.5 else [0, 0, 1, 2]
         ops = [rng.choice(vias) + 10 * rng.choice(bumps) for _ in ls]
         # the via digit of the first op selects the store: 0 Store, 1 ArcStore, 2 Store iterated backwards, 3 root-level field
@@ -379,7 +381,7 @@ def valid_case(item):
             isinstance(l, list) and all(isinstance(k, int) and k >= 0 for k in l) and len(set(l)) == len(l) for l in c[4])):
         return False
     if m == 14 and not (isinstance(c[4], list) and len(c[4]) <= 10      # a missing op is 0
-                        and all(isinstance(o, int) and 0 <= o % 10 <= 5 and 0 <= o // 10 <= 2 for o in c[4])):
+                        and all(isinstance(o, int) and 0 <= o % 10 <= 6 and 0 <= o // 10 <= 2 for o in c[4])):
         return False
     if m == 20 and not (isinstance(c[4], list) and 1 <= len(c[4]) <= 4 and all(valid_shape(x) for x in c[4])):
         return False
@@ -607,9 +609,9 @@ def oracle(item, impl):
         js_of = lambda k: list(range(1 if m in (4, 5) else m))
     if isinstance(impl, str):
         if m == 14:
-            return ("panic while the <For> over the keyed store field was (re)rendering - a row's AtKeyed handle (src/"
-                    "c11store.rs:85 is the key function, :104 the row's text) did not resolve to an item of the current "
-                    "collection: " + impl)
+            return ("panic while the <For> over the keyed store field was updated / (re)rendered - an AtKeyed handle (the "
+                    "<For> key function, a row's text, or a row's write through its handle) did not resolve to an item of "
+                    "the current collection: " + impl)
         return "panic / harness error: " + impl
     if m in (11, 12, 14):
         if len(impl) != len(ls):
@@ -688,7 +690,7 @@ def describe(item):
                                                              " -> ".join(str(l) for l in bases)))
     if m == 14:
         via = ["rows().write()", "group().write().rows", "store.write().group.rows", "store.set(..)", "rows().set(..)",
-               "group().update(..)"]
+               "group().update(..)", "rows().update_untracked(..); every retained row: label += 1 through its handle, -= 1 by id; rows().notify()"]
         bump = ["the row's AtKeyed handle", "rows().write()", "store.write()"]
         ops = (item["case"][4] + [0] * len(ls))[:len(ls)]
         store = ["Store", "ArcStore", "Store, iterated backwards (.into_iter().rev())", "Store whose ROOT struct has the keyed field"][
